@@ -56,6 +56,12 @@ FAMILIES = {
     "pause": ([("q1", None, "NORMAL")], ["ta"], {"fifo_only": True, "max_ids": 14, "nops": 40, "sleeps_ms": [1, 150],
               "weights": {"enq": 4, "consume": 1, "consume_bg": 6, "join": 4, "pause": 3, "ack": 2, "finish": 0, "sleep": 1, "reject": 0, "nack": 0, "requeue": 0}}),
     "pause-directed": "directed",
+    "maint-directed": "directed",
+    # broker maintenance (run when any client connects or disconnects) while messages with short, default and day-long execution
+    # timeouts are in flight with live consumers: nothing is taken away from a live holder before its timeout
+    "maint": ([("q1", None, "NORMAL")], ["ta"],
+              {"exec_timeouts_s": [None, 86402, 90000, 30], "ttls_ms": [None], "delays_ms": [None, None, 1], "sleeps_ms": [1, 1100, 2500, 4000],
+               "max_ids": 3, "nops": 18, "weights": {"maint": 4, "enq": 3, "consume": 4, "sleep": 4, "finish": 0, "nack": 0, "requeue": 0}, "no_inject": True}),
     # returned messages that carry a (passed) due time, followed by new arrivals
     "fifo-ret": ([("q1", None, "NORMAL")], ["ta"], {"delays_ms": [None, None, -5, -5, 1], "ttls_ms": [None], "max_ids": 12, "nops": 45, "sleeps_ms": [1, 5, 1100],
                  "weights": {"enq": 5, "consume": 5, "reject": 4, "ack": 1, "nack": 0, "requeue": 1, "finish": 0, "sleep": 2}}),
@@ -90,11 +96,26 @@ def directed_pause():
     return out
 
 
+def directed_maint():
+    """a message with execution timeout T is held by a live consumer for w seconds; other clients connect / disconnect
+    (maintenance) meanwhile; then it is settled, and a second one goes through: nothing is taken from a live holder"""
+    out = []
+    all_w = {"enq": 1, "consume": 1, "ack": 1, "reject": 1, "maint": 1, "sleep": 1, "finish": 1}
+    for T in (86402, 90000, 172801, 30, None):
+        for w in (1100, 2500, 4000):
+            for settle in ("ack", "reject"):
+                ops = [("start", 0), "enq", ("consume", 0), ("sleep", w), "maint", ("sleep", 1), "maint", (settle, 0, 0),
+                       "maint", ("consume", 0), "enq", ("consume", 0), ("sleep", w), "maint", ("ack", 0, 0), ("consume", 0)]
+                out.append(dict(seed=7500 + len(out), consumers=[("q1", None, "NORMAL")], topics=["ta"], fifo_only=True, script=ops,
+                                weights=all_w, consume_tmo_ms=[300], exec_timeouts_s=[T], max_ids=4, no_inject=True))
+    return out
+
+
 PER_PROPERTY = {
     "C01": ["n", "n+x", "n+d", "n+n", "topics", "2q", "same-due", "flush"],
     "C05": ["delay", "latency", "n+d", "same-due"],
     "C12": ["ttl", "n+x", "n"],
-    "C14": ["n+n", "topics", "n+x", "2q"],
+    "C14": ["n+n", "topics", "n+x", "2q", "maint", "maint-directed"],
     "C15": ["fifo1", "fifoprio", "fifo-ret", "starve", "pause", "pause-directed", "n"],
     "C07": ["n", "n+x", "n+d"],
 }
@@ -156,7 +177,7 @@ def run(pid: str, tier: str, seed: int, *, replay: dict | None = None) -> int:
         for be in BACKENDS:
             for fam in PER_PROPERTY[pid]:
                 if FAMILIES[fam] == "directed":
-                    scs += [dict(sc, backend=be) for sc in directed_pause()]
+                    scs += [dict(sc, backend=be) for sc in (directed_pause() if fam == "pause-directed" else directed_maint())]
                     continue
                 consumers, topics, extra = FAMILIES[fam]
                 for s in range(nseeds if be == "inmem" else max(3, nseeds // 2)):
